@@ -3,7 +3,7 @@
    Level: proof of the value <-> serde data-model tree mapping of the DERIVED impls, generic in the
    schema, instantiated with the schema extracted from the source on every run; serde_yaml's text
    layer is an oracle tied in by the correspondence run (real save -> file -> load).  Partial in
-   that sense, and in that `is_valid` itself is not modelled (its result is carried by the case). *)
+   that sense.  `is_valid` is modelled (C41/Valid.v) and compared with the real one on every case. *)
 From Coq Require Import List ZArith Bool String.
 Import ListNotations.
 From OV Require Import C41.Schema Gen.C41Schema C41.SchemaProofs C41.Model C41.Proofs.
@@ -46,6 +46,15 @@ Theorem C41_save_load_roundtrip : forall c, wt cfg_schema true FUEL (root c) (c_
   exists y, ser cfg_schema FUEL (root c) (c_val c) = Some y /\ de cfg_schema FUEL (root c) y = Some (c_val c).
 Proof. exact save_load_roundtrip. Qed.
 Print Assumptions C41_save_load_roundtrip.
+
+(* "... and is still valid": is_valid, as modelled in C41/Valid.v from ClientConfig::is_valid,
+   ServerConfig::is_valid and the token / endpoint / security-policy / security-mode functions they
+   call, says of the configuration read back from the file what it said of the original *)
+Theorem C41_loaded_still_valid : forall c y v', wt cfg_schema true FUEL (root c) (c_val c) = true ->
+  ser cfg_schema FUEL (root c) (c_val c) = Some y -> de cfg_schema FUEL (root c) y = Some v' ->
+  is_valid_m (c_kind c) v' = is_valid_m (c_kind c) (c_val c).
+Proof. exact loaded_still_valid. Qed.
+Print Assumptions C41_loaded_still_valid.
 
 Theorem C41_oracle : forall c, valid c -> known c = 0 -> oracle c (run c) = true.
 Proof. exact oracle_holds. Qed.
